@@ -25,12 +25,12 @@ CHECKS = {
     "C17": ("model_checking",
             "TLA+ Configs (i-th configuration belongs to the i-th layer) over TLC-enumerated stacks and helper chains + generated programs reading configurations back, rebuilding and using the positional helper",
             "For every enumerated stack (pairwise distinct configuration values; chains of depth 2..10 whose adjacent layers share a configuration type but not its value) the generated program walks get_backend() on owning and non-owning data with statically checked types, compares every get_configuration() with the argument it was built from, rebuilds a field from the reported configurations and storage and compares it at every query, and builds through make_parameter_pack_for comparing every layer.",
-            "Trusted: TLC, g++ 12, lib/gen_stack.py. Configuration values are small integers (exact in every scalar type).",
+            "Trusted: TLC, g++ 12, lib/gen_stack.py. Configuration values are small integers (exact in every scalar type). Also: read-back and rebuild after assignment over a larger field; arrays not sized for the layer above them and arrays with 8/16-bit index types (configuration-only programs).",
             "DESIGN.md section 4, C17"),
     "C06": ("model_checking",
             "TLA+ grammar of the binary format over 16-bit limbs checked by TLC (Parse o Ser = id) + byte-exact comparison of real dumps with the specification's stream + TLC parsing dumps of random bit patterns",
-            "TLC checks the round-trip and grammar laws for 20 catalogue stacks covering every serialisable layer and value sets with signed zeros, subnormals, infinities and NaN payloads; every instance is built on the real library, dumped and compared byte for byte with the stream the specification prescribes (an independent definition of the format), reloaded, compared layer by layer and bit by bit and through lookups at every coordinate, and re-dumped, in the assertion and the NDEBUG build; random bit patterns (every fifth instance scaled beyond 1024 cells and written to / read from a real file) dumped by the library are parsed independently by TLC.",
-            "Trusted: TLC, g++ 12, harness/h_io.cpp (memcpy-based projection of configurations and stored scalars). Extents are 1..3 per axis plus one value set with more than 256 cells.",
+            "TLC checks the round-trip and grammar laws for 22 catalogue stacks (two with configurations larger than 64 bytes) covering every serialisable layer and value sets with signed zeros, subnormals, infinities and NaN payloads; every instance is built on the real library, dumped and compared byte for byte with the stream the specification prescribes (an independent definition of the format), reloaded, compared layer by layer and bit by bit and through lookups at every coordinate, and re-dumped, in the assertion and the NDEBUG build; random bit patterns (every fifth instance scaled beyond 1024 cells and written to / read from a real file) dumped by the library are parsed independently by TLC.",
+            "Trusted: TLC, g++ 12, harness/h_io.cpp (memcpy-based projection of configurations and stored scalars). Extents are 1..3 per axis plus one value set with more than 256 cells; random instances up to 2 500 cells and fields of 10^5-10^6 vectors go through real files and are judged by Trace_Golden (TDump / THuge: structure, length and sampled scalars).",
             "DESIGN.md section 4, C06"),
     "C07": ("model_checking",
             "TLA+ portability relation (same on-disk shape) and IEEE-754 widen/narrow oracle on limbs checked by TLC + every (file, reading type) pair replayed + committed golden files parsed by TLC",
@@ -50,7 +50,7 @@ CHECKS = {
     "C12": ("model_checking",
             "TLA+ state machine of field slots, heap blocks and a ghost array model checked by TLC + TLC-generated behaviours (one per transition, plus seeded simulations) replayed on real fields with full state comparison after every step",
             "TLC exhausts every history of construct / write / copy and move construction and assignment (incl. self-assignment) / conversion / dump / load / destroy over 2 slots (<= 5 or 6 operations) and 3 slots (<= 5) and checks Refines, NoAlias, NoUseAfterFree, NoDoubleFree, NoLeak; the implementation is bound by replaying one witness behaviour per transition of the abstract state graph and simulated 30-operation histories on real fields, comparing all values, configurations and the number of live storage blocks after every step under ASan/LSan/UBSan; in the other direction an independent seeded random driver performs 70-operation histories (incl. moving conversions and default-constructed fields) on real fields and every logged operation with the observed projection of every slot must be a step of the specification (Trace_Lifecycle).",
-            "Trusted: TLC, g++ 12, ASan/LSan/UBSan, replaced operator new[]/delete[], harness/h_lifecycle.cpp. Moved-from and self-moved fields are unspecified (only destroyed or assigned to). Field types: four layouts x N in 1..4 over array<float1>.",
+            "Trusted: TLC, g++ 12, ASan/LSan/UBSan, replaced operator new[]/delete[], harness/h_lifecycle.cpp. Moved-from and self-moved fields are unspecified (only destroyed or assigned to). Field types: four layouts x N in 1..4 over array<float1>. Additionally: histories of any length (finite-state unbounded mode), long-lived views with the rule for when they die, adoption of storage objects through parameter packs, lineage-split witnesses (a ghost that travels like private members) so that histories differing only in how an object came to its value are replayed, dump payload compared cell by cell, an independent random driver validated by Trace_Lifecycle.",
             "DESIGN.md section 4, C12"),
     "C05": ("model_checking",
             "TLA+ Convert action (re-layout copy in nd_map order) checked by TLC + generated conversion behaviours replayed on real fields + all ordered layout pairs and whole stacks on TLC-enumerated extents + trace validation of random extents",
@@ -65,7 +65,7 @@ CHECKS = {
     "C09": ("model_checking",
             "TLA+ integer model of covfie::algebra checked by TLC + emitted cases replayed exactly + trace validation of random integer products",
             "TLC checks that compose-as-coded (homogeneous embedding) equals textbook composition, that (A*B)v = A(Bv), that products of up to four factors associate and that the factories have their meaning; cases are replayed with exact equality on covfie::algebra in float and double and on affine<identity> views; random operands (beyond 2^24 for double) are recomputed by TLC.",
-            "Trusted: TLC, g++ 12. Not decided: bounded relative error over arbitrary finite floats (TLA+ has no floats); the exact domain separates float from double accumulation via products above 2^24.",
+            "Trusted: TLC, g++ 12, TLAPS (AlgebraProofs: the composition law for N = 1, 2 over all integers). Not decided: bounded relative error over arbitrary finite floats (TLA+ has no floats); the exact domain separates float from double accumulation via products above 2^24 and is stretched by exactness-preserving power-of-two scalings (entries to 2^-1035, coordinates to 2^1018); products are also formed concurrently by 8 threads (TSan, and -O2 without -pthread).",
             "DESIGN.md section 4, C09 and section 6"),
     "C20": ("model_checking",
             "TLA+ transcription of the index-sequence metaprograms checked by TLC + every enumerated case compiled as a constant expression against the real templates",
